@@ -1051,6 +1051,20 @@ theorem policy_shape_irrelevant (i : Input) (p : Policy) (hwf : wf i = true)
   rw [h1, h2]
   rfl
 
+/-- **Where plugin-defined identities stand in the list, a stranger's signature on the same artifact (before or after,
+same or other envelope format), and the validity bounds of a signing-authority certificate minted at signing time do
+not matter** -/
+theorem identity_list_irrelevant (i : Input) (l : IdentityList) : run { i with identities := l } = run i := rfl
+theorem other_signature_irrelevant (i : Input) (x : OtherSignature) : run { i with otherSignature := x } = run i := rfl
+theorem cert_window_irrelevant (i : Input) (w : CertWindow) : run { i with certWindow := w } = run i := rfl
+theorem these_irrelevant_holds (i : Input) (l : IdentityList) (x : OtherSignature) (w : CertWindow) (o : Obs) :
+    Holds { i with identities := l, otherSignature := x, certWindow := w } o = Holds i o := rfl
+
+/-- under the signing-authority scheme no timestamp is ever demanded -/
+theorem signingAuthority_needs_no_timestamp (i : Input) (h : effectiveScheme i = .signingAuthority) :
+    timestampDemanded i = false := by
+  simp [timestampDemanded, h]
+
 /-- **Other calls in flight do not matter**: a round trip observes the same alone, interleaved with another blob
 call in either role, or among many goroutines. -/
 theorem in_flight_irrelevant (i : Input) (f : InFlight) : run { i with inFlight := f } = run i := rfl
@@ -1213,7 +1227,9 @@ def exampleBlob : Input :=
                  keyVia := .rotated },
     tamper := .reserialised, envelopeLastByte := some 32, trailingNewline := false,
     extAttrs := .nonCritical, timeZone := "Australia/Lord_Howe",
-    policy := { tsaStore := true, verifyTimestamp := .afterCertExpiry, named := true }, inFlight := .pinnedFirst }
+    policy := { tsaStore := true, verifyTimestamp := .afterCertExpiry, named := true }, inFlight := .pinnedFirst,
+    identities := .foreignBefore, otherSignature := .strangerBeforeOtherFormat, scheme := .signingAuthority,
+    certWindow := .notBeforeIsSigningTime }
 
 /-- a concrete successful round trip (legal, verified, SHA-384 digest for an EC-384 key, 2 s expiry) -/
 example : obsSpec exampleBlob =
